@@ -1094,6 +1094,9 @@ theorem dnsDecodeQuery_ok (b : RxBuf) (hcap : b.plen ≤ b.cap) : IsOk (dnsDecod
         intro x _
         obtain ⟨d, w⟩ := x
         dsimp only
+        by_cases hlong : (cstr (List.take 255 w)).length > 253
+        · simp only [if_pos hlong]; exact isOk_ok _
+        simp only [if_neg hlong]
         by_cases h3 : checklenFails b 4 d = true
         · simp only [h3, if_true]; exact isOk_ok _
         · have := checklen_ok h3
